@@ -158,6 +158,8 @@ def alpha_facts(S, formulas):
     """C09 postcondition alpha.range instantiated at every alpha lookup occurring in the formulas:
     0 < min alpha <= alpha(q) <= max alpha   (FlowProperties.valid())"""
     A = S.A
+    if getattr(A, "mode", None) != "fill" or getattr(A, "kind", "linear") != "linear":
+        raise sx.OutOfSubset("the diffusivity lookup is not a clipped linear interpolant: FlowProperties.valid() (C09 alpha.range) is not available")
     out = [tm.gt(A.fill_lo, tm.rconst(0)), tm.le(A.fill_lo, A.fill_hi)]
     seen = set()
     for f in formulas:
@@ -180,3 +182,26 @@ def mono_facts(S, queries):
 
 def inr(j, n):
     return tm.land(tm.le(tm.const(0), j), tm.lt(j, n))
+
+
+def dependency_obligations(ctx, which=("build_matrix", "solve", "alpha", "mscaled")):
+    """the callee / data-structure contracts a reservoir proof rests on, re-verified inside the dependent check
+    (a change inside a callee is noticed by the callee's own obligation, under the dependent property's id)"""
+    from . import c04, c09
+    out = []
+    want = []
+    if "build_matrix" in which:
+        want += [("c04", "build_matrix.shape"), ("c04", "build_matrix.entries"), ("c04", "build_matrix.mmatrix")]
+    if "solve" in which:
+        want += [("c04", "solve.contract")]
+    if "alpha" in which:
+        want += [("c09", "alpha.range")]
+    if "mscaled" in which:
+        want += [("c09", "init.mscaled_increasing.long"), ("c09", "init.frame")]
+    built = {}
+    for modname, oid in want:
+        if modname not in built:
+            built[modname] = {o.id: o for o in {"c04": c04, "c09": c09}[modname].build(ctx)}
+        src = built[modname][oid]
+        out.append(Obligation("dep." + oid, f"[contract relied upon, {modname.upper()}] " + src.statement, src.run, src.functions, src.backend, src.replay, src.assumptions))
+    return out
